@@ -69,6 +69,16 @@ def namings(tier: str) -> list[dict]:
         n["named"] = "-"
         out.append(n)
     gen_states += res.distinct
+    # two wrappers, possibly around ONE data object (small family: taken whole)
+    res = tlc.run_tlc("PtNamesDW2", "PtNamesDW2.cfg", workers=1, timeout=600)
+    if res.error:
+        raise MachineryError(f"PtNamesDW2 generator: {res.error[:500]}")
+    for n in tlc.parse_printed_json(res, "NAMING"):
+        n["template"] = "DW2"
+        n["family"] = "two_wrappers"
+        n["named"] = "-"
+        out.append(n)
+    gen_states += res.distinct
     for k, n in enumerate(out):
         n["id"] = f"n{k}"
     rng = np.random.default_rng(seed())
@@ -81,7 +91,8 @@ def namings(tier: str) -> list[dict]:
     pick = lambda seq, k: [seq[i] for i in sorted(rng.permutation(len(seq))[:k])]  # noqa: E731
     dwf = [n for n in out if n["family"] == "wrapped_data"]
     spf = [n for n in out if n["family"] == "size_param"]
-    sel = spf + (pick(acc, want * 4 // 10) + pick(rej, want * 1 // 10) + pick(resv, want * 2 // 10)
+    dw2 = [n for n in out if n["family"] == "two_wrappers"]
+    sel = spf + dw2 + (pick(acc, want * 4 // 10) + pick(rej, want * 1 // 10) + pick(resv, want * 2 // 10)
            + pick(dwf, want * 3 // 10))
     # ONE array under TWO output keys (a computed array: T02, an input: T03), and a
     # third reader of it: each key must still appear
@@ -103,6 +114,23 @@ def build_template(n: dict) -> tuple[Any, dict, dict]:
         def ref_sp(av: np.ndarray, bv: np.ndarray) -> dict:
             return {n["outs"][0]: av * av.shape[0] + 1}
         return {n["outs"][0]: a * p + 1}, {}, {"ref": ref_sp}
+    if n["template"] == "DW2":
+        a = pt.make_placeholder(n["ins"][0], (3,), np.float64)
+        d1 = np.array([1.0, 2.0, 3.0])
+        d2 = d1 if n["same"] else np.array([10.0, 20.0, 30.0])
+        ws = []
+        for w, d in enumerate((d1, d2)):
+            W = pt.make_data_wrapper(d)
+            if n["kinds"][w] == "named":
+                W = W.tagged(Named(n["dws"][w]))
+            elif n["kinds"][w] == "prefix":
+                W = W.tagged(PrefixNamed(n["dws"][w]))
+            ws.append(W)
+
+        def ref2(av: np.ndarray, bv: np.ndarray) -> dict:
+            return {n["outs"][0]: (av * 2 - d1) * d2}
+        return ({n["outs"][0]: (a * 2 - ws[0]) * ws[1]},
+                {"d1": d1} if n["same"] else {"d1": d1, "d2": d2}, {"ref": ref2})
     if n["template"] == "DW":
         a = pt.make_placeholder(n["ins"][0], (3,), np.float64)
         d1 = np.array([1.0, 2.0, 3.0])
@@ -158,7 +186,8 @@ def observe(n: dict) -> dict:
     from ptverif import cexec
     rec: dict[str, Any] = {"id": n["id"], "expect": n["expect"], "family": n["family"],
                            "naming": {k: n[k] for k in ("ins", "outs", "named", "template",
-                                                        "kind", "dw", "ndw", "sp") if k in n}}
+                                                        "kind", "dw", "ndw", "sp", "kinds",
+                                                        "dws", "same") if k in n}}
     try:
         outs, wrapped, aux = build_template(n)
     except Exception as ex:      # noqa: BLE001
@@ -177,7 +206,10 @@ def observe(n: dict) -> dict:
     temps = sorted(knl.temporary_variables)
     user = set(n["ins"]) | set(n["outs"]) | set(outs) | ({n["sp"]} if "sp" in n else set()) | (
         {n["named"]} - {"-"}) | (
-        {n["dw"]} if n.get("kind") == "named" else set())
+        {n["dw"]} if n.get("kind") == "named" else set()) | (
+        {d for k, d in zip(n["kinds"], n["dws"]) if k == "named"} if "kinds" in n else set())
+    prefixes = [n["dw"]] if n.get("kind") == "prefix" else \
+        [d for k, d in zip(n.get("kinds", ()), n.get("dws", ())) if k == "prefix"]
     rng = np.random.default_rng(abs(hash(n["id"])) % (2 ** 31))
     av, bv = rng.standard_normal(3), rng.standard_normal(3).astype(np.float32)
     if n["template"] == "SP":
@@ -214,15 +246,17 @@ def observe(n: dict) -> dict:
                                              else set())),
         "result_keys": result_keys,
         "named_honoured": ([n["named"]] if n["named"] != "-" else [])
-        + ([n["dw"]] if n.get("kind") == "named" else []),
+        + ([n["dw"]] if n.get("kind") == "named" else [])
+        + [d for k, d in zip(n.get("kinds", ()), n.get("dws", ())) if k == "named"],
         "prefix": n["dw"] if n.get("kind") == "prefix" else "",
         # (a PrefixNamed name is derived by the name generator from the prefix; when
         # the prefix itself ends in _<k>, the counter is incremented: x_0 -> x_1)
-        "generated": [{"name": x, "reserved": x.startswith("_pt_") or (
-            n.get("kind") == "prefix"
-            and x.startswith(re.sub(r"_[0-9]+$", "", n["dw"])))}
+        "generated": [{"name": x, "reserved": x.startswith("_pt_") or any(
+            x.startswith(re.sub(r"_[0-9]+$", "", p)) for p in prefixes)}
                       for x in args + temps if x not in user],
-        "bound_keys": sorted(bound), "n_wrapped": len(wrapped),
+        # (every DataWrapper NODE is an entity with an argument of its own, also when
+        # two of them wrap one object)
+        "bound_keys": sorted(bound), "n_wrapped": 2 if n["template"] == "DW2" else len(wrapped),
         "data_identical": bool(data_identical), "values_ok": bool(values_ok)})
     return rec
 
